@@ -49,6 +49,7 @@ BENIGN = {
     "B3": ("mutants/B3.diff", "general path rejects wrongly shaped buffers up front"),
     "B4": ("mutants/B4.diff", "general path accepts strided buffers (layout-agnostic sub-view)"),
     "B5": ("mutants/B5.diff", "different wording of the out-of-range error"),
+    "B6": ("mutants/B6.diff", "a mutex held for the whole batch: blocks under the baton, the watchdog releases the run (lost_control), answers unchanged"),
 }
 
 
@@ -168,6 +169,37 @@ def determinism(ck):
     return 0
 
 
+def known_plumbing():
+    """a listed finding prints KNOWN-FINDING and exits 0; a different violation of the same property
+    is still reported; the file is never written at run time"""
+    import tempfile
+    failed = 0
+    with tempfile.NamedTemporaryFile("w", suffix=".txt", delete=False) as f:
+        f.write("# selftest\nknown: property=C18 kind=error-changed match=but the caller got OutOfBounds(\"x = \n")
+        kf = f.name
+    before = open(kf).read()
+    os.environ["VERIF_KNOWN_FILE_FOR_SELFTEST"] = kf
+    try:
+        # M10 alone: every violation it causes is the listed one
+        rc, got, viol, wall, out = with_patch("mutants/M10.diff", lambda: run_check("C18"))
+        ok = rc == 0 and not viol and "KNOWN-FINDING: property=C18" in out
+        print(f"known/listed-only   {'ok' if ok else 'FAILED'} exit={rc} violations={len(viol)}", flush=True)
+        failed += 0 if ok else 1
+        # M13 breaks C18 in a different way: must still be reported although a C18 finding is listed
+        rc, got, viol, wall, out = with_patch("mutants/M13.diff", lambda: run_check("C18"))
+        ok = rc == 1 and any("property=C18" in v for v in viol)
+        print(f"known/other-violation {'ok' if ok else 'FAILED'} exit={rc} violations={len(viol)}", flush=True)
+        failed += 0 if ok else 1
+    finally:
+        del os.environ["VERIF_KNOWN_FILE_FOR_SELFTEST"]
+    if open(kf).read() != before:
+        print("known: the file was modified at run time")
+        failed += 1
+    os.remove(kf)
+    print("selftest known:", "ok" if failed == 0 else f"{failed} FAILED", flush=True)
+    return 0 if failed == 0 else 1
+
+
 def main(argv, ck):
     if not argv:
         print(__doc__)
@@ -178,5 +210,7 @@ def main(argv, ck):
         return sensitivity(argv[1:])
     if argv[0] == "benign":
         return benign(argv[1:])
+    if argv[0] == "known":
+        return known_plumbing()
     print(__doc__)
     return 2
